@@ -371,7 +371,15 @@ def run(facts, tr, rep):
     resets = [c for c in g.calls() if c.name == "reset" and "tokio::time::sleep::Sleep" in (c.def_ or c.path or "")]
     for n, c in enumerate(resets):
         d = tr.expand(tr.operand(hb, c.args[1], c.loc), upvars=True, params=True)
-        ok = bool(calls_in(tr, d, lambda x: x.name == "get_delay")) and bool(calls_in(tr, d, lambda x: x.name == "now"))
+        # now() + get_delay(..), or the deadline of a fresh `sleep(get_delay(..))` (which is exactly that, saturating)
+        fresh = [tr.call_of(peel(d))] if peel(d)[0] == "call" and tr.call_of(peel(d)).name == "deadline" and "Sleep" in (tr.call_of(peel(d)).def_ or tr.call_of(peel(d)).path or "") else []
+        fresh_ok = False
+        for fc in fresh:
+            src = peel(tr.expand(tr.operand(fc.g.b, fc.args[0], fc.loc), upvars=True, params=True))
+            if src[0] == "call" and (tr.call_of(src).def_ or "").startswith("tokio::time::sleep::sleep") and \
+               calls_in(tr, tr.expand(tr.operand(tr.call_of(src).g.b, tr.call_of(src).args[0], tr.call_of(src).loc), upvars=True, params=True), lambda x: x.name == "get_delay"):
+                fresh_ok = True
+        ok = (bool(calls_in(tr, d, lambda x: x.name == "get_delay")) and bool(calls_in(tr, d, lambda x: x.name == "now"))) or fresh_ok
         rep.ob("C12.DELAY-ORIGIN", skey(hb, "reset#%d" % n), ok, c.where(),
                "the hedge timer is re-armed at now() + a configured delay" if ok else
                "the hedge timer is re-armed at %s, not at now() + get_delay(..): measured from the previous deadline instead of from the "
